@@ -27,6 +27,18 @@ func CopyMessage(out, in interface{}) error {
 		return fmt.Errorf("destination for copy is not a proto.Message: %T; use a custom cloner", in)
 	}
 
+	_, dynOut := pmOut.(*dynamic.Message)
+	_, dynIn := pmIn.(*dynamic.Message)
+	if dynOut || dynIn {
+		// Merging from or into a dynamic message copies byte slices (and, from
+		// a generated message, nested messages) by reference. So we merge from
+		// a private deep copy of the input instead.
+		var err error
+		if pmIn, err = deepClone(pmIn); err != nil {
+			return err
+		}
+	}
+
 	pmOut.Reset()
 	// This will check that types are compatible and return an error if not.
 	// Unlike proto.Merge, this allows one or the other to be a dynamic message.
@@ -40,8 +52,27 @@ func CloneMessage(m interface{}) (interface{}, error) {
 		return nil, fmt.Errorf("value to clone is not a proto.Message: %T; use a custom cloner", m)
 	}
 
-	// this does a proper deep copy
-	return proto.Clone(pm), nil
+	return deepClone(pm)
+}
+
+// deepClone returns a copy of m that shares no memory with it. For generated
+// messages, proto.Clone does a proper deep copy. A clone of a dynamic message
+// would share byte slices with the original, so dynamic messages are copied
+// via their serialized form.
+func deepClone(m proto.Message) (proto.Message, error) {
+	dm, ok := m.(*dynamic.Message)
+	if !ok {
+		return proto.Clone(m), nil
+	}
+	b, err := dm.Marshal()
+	if err != nil {
+		return nil, err
+	}
+	c := dynamic.NewMessage(dm.GetMessageDescriptor())
+	if err := c.Unmarshal(b); err != nil {
+		return nil, err
+	}
+	return c, nil
 }
 
 // ClearMessage resets the given value to its zero-value state. It returns an error
